@@ -240,6 +240,13 @@ impl<'a> Explorer<'a> {
     /// Explores the subtree below the current prefix. `mcfg`: the model's configuration after the prefix
     /// (None once the model has rejected or failed); `rcfg`: the reference driver's (None once it rejected);
     /// `earley`: Some while the prefix is Earley-viable.
+    /// Can the current word be extended to no sentence at all? (Earley over the reduced grammar)
+    fn literally_dead(&self) -> bool {
+        let rg = reduced(&self.case.g);
+        let ra = Analysis::new(&rg);
+        literal_error_index(&ra, &self.word).is_some()
+    }
+
     fn dfs(&mut self, mcfg: Option<Config>, rcfg: Option<RefCfg>, earley: &mut Option<Earley<'_>>) {
         self.nodes_visited += 1;
         let t = self.case.g.t as u8;
@@ -349,6 +356,10 @@ impl<'a> Explorer<'a> {
                 (Some(Step::Loops(p)), _) => self.report("C01", format!("the emitted parser does not terminate on {:?}: {p}", self.word), json!("termination"), json!(p)),
                 (Some(Step::Accepted), _) => self.report("C01", format!("the emitted parser accepts before end of input on {:?}", self.word), json!("no accept before end of input"), json!("Accept")),
                 (Some(Step::Error), Some(Step::Error)) => self.acc.inc("rejections at a token agreeing with the LR(1) reference"),
+                // Where unproductive nonterminals exist the two readings of C03 part: a canonical LR parser (which C17
+                // demands) stops where no *sentential form* continues the prefix, the statement says where no
+                // *sentence* does, which can be earlier. Every index between the two is accepted.
+                (Some(Step::Error), Some(Step::Shifted)) if !self.all_productive && self.use_ref && self.literally_dead() => self.acc.inc("rejections before the LR(1) reference stops, at a prefix that no sentence extends (unproductive nonterminals; allowed by the statement)"),
                 (Some(Step::Error), Some(Step::Shifted)) => self.report("C03", format!("the emitted parser reports token {} of {:?} but the reference LR(1) parser accepts that prefix", at, self.word), json!("no error at this token"), json!(format!("Err(Some(token {at}))"))),
                 (Some(Step::Shifted), Some(Step::Error)) => self.report("C03", format!("the reference LR(1) parser stops at token {} of {:?} but the emitted parser consumes it", at, self.word), json!(format!("Err(Some(token {at}))")), json!("token consumed")),
                 _ => {}
